@@ -20,13 +20,23 @@ def ioTimeout : Nat := max readerTO writerTO
 theorem ioTimeout_eq : ioTimeout = 10000 := by decide
 
 /-- a quiescent point of a history at which the user may call close(): no library task is
-about to run, close() has not been called, connect() is not in progress -/
+runnable (`internal? = none`: no loss handler, no producer or set-up task that has not run yet,
+no consumer with a frame to take), close() has not been called, connect() is not in progress,
+every received frame has been handled -/
 structure AtRest (s : St) : Prop where
   closing : s.closing = .no
   notUser : reconOwner s.recon ≠ some .user
+  readIdle : s.rUnf = 0      -- no frame is queued or in a consumer's hand (else: read-queue side of F1, `stuck_read_queue`)
+  quiet : internal? s = none
 
 /-- what the modelled scheduler does for: close(); frames arriving after the given gaps; then
-up to WRITER_TIMEOUT for the transport's `wait_closed()` -/
+up to WRITER_TIMEOUT for the transport's `wait_closed()`.  This is ONE schedule: the one the
+asyncio loop produces when, between close() and its return, nothing happens but the arrival of
+those frames.  Not covered by the liveness theorems below (they are covered by the harness, and
+by the safety theorems `stuck_*` which hold for every schedule): a connection loss while
+`Queues.join` waits, requests queued meanwhile (by the user, or by a device set-up round whose
+timer fires - see `close_during_setup` for the case where the frames arrive first), a device
+set-up task that becomes runnable (excluded at the start by `AtRest.quiet`). -/
 def closeSchedule (gaps : List Nat) : List Ev :=
   [.close] ++ drainEvs gaps ++ [.shutdownRun, .advance writerTO, .tick .cwcloseTO]
 
@@ -65,7 +75,9 @@ theorem close_idle {s : St} (hr : AtRest s) (h0 : unfinished s = 0) :
     rw [this]; exact cancelConn_owner hr.notUser
   have hnow : (beginJoin (cancelConn s)).now = s.now := by
     rw [(beginJoin_fields _).1, (cancelConn_fields s).1]
-  have hc := shutdown_completes (beginJoin (cancelConn s)) s.now hj hro
+  have hrj : (beginJoin (cancelConn s)).rj = true := by
+    rw [(beginJoin_fields _).2.2.2.2.2.2.2.2.2, (cancelConn_fields s).2.2.2.2.2.2.2.2.2, hr.readIdle]; rfl
+  have hc := shutdown_completes (beginJoin (cancelConn s)) s.now hj hrj hro
   rw [hnow] at hc
   have : (run s (closeSchedule [])).1 = (run (beginJoin (cancelConn s)) [.shutdownRun, .advance writerTO, .tick .cwcloseTO]).1 := by
     simp only [closeSchedule, drainEvs, List.flatMap_nil, List.append_nil, List.nil_append, List.cons_append]
@@ -93,8 +105,8 @@ theorem close_draining {s : St} (hs : Reachable s) (hr : AtRest s) (dl : Nat) (g
   have e1 : (step s .close).1 = beginJoin (cancelConn s) := by
     have hu : reconOwner s.recon ≠ some .user := hr.notUser
     simp [step, closeEv, hr.closing, hu, isDone]
-  obtain ⟨c1, c2, c3, c4, c5, c6, c7, c8, c9⟩ := cancelConn_fields s
-  obtain ⟨b1, b2, b3, b4, b5, b6, b7, b8, b9⟩ := beginJoin_fields (cancelConn s)
+  obtain ⟨c1, c2, c3, c4, c5, c6, c7, c8, c9, c10⟩ := cancelConn_fields s
+  obtain ⟨b1, b2, b3, b4, b5, b6, b7, b8, b9, b10⟩ := beginJoin_fields (cancelConn s)
   have hcr : (cancelConn s).recon = .idle := by unfold cancelConn; split <;> first | rfl | exact hrec
   have hunf : unfinished (cancelConn s) ≠ 0 := by
     rw [unfinished_cancelConn]; unfold unfinished
@@ -102,7 +114,7 @@ theorem close_draining {s : St} (hs : Reachable s) (hr : AtRest s) (dl : Nat) (g
     omega
   let j := beginJoin (cancelConn s)
   have hdr : Draining j s.now dl := by
-    refine ⟨?_, ?_, ?_, ?_, ?_, ?_, ?_, ?_, ?_⟩
+    refine ⟨?_, ?_, ?_, ?_, ?_, ?_, ?_, ?_, ?_, ?_⟩
     · show (beginJoin (cancelConn s)).closing = _
       rw [beginJoin_closing, c1]; simp [hunf]
     · show (beginJoin (cancelConn s)).producers > 0; rw [b3, c3]; exact hp
@@ -115,12 +127,13 @@ theorem close_draining {s : St} (hs : Reachable s) (hr : AtRest s) (dl : Nat) (g
       have : (beginJoin (cancelConn s)).devices = s.devices := by rw [b9, c8]
       rw [this] at hdm; exact hns d hdm
     · show (beginJoin (cancelConn s)).writeQ ≠ []; rw [b2, c2]; exact hq
+    · show (beginJoin (cancelConn s)).rj = true; rw [b10, c10, hr.readIdle]; rfl
   have hjn : j.now = s.now := by show (beginJoin (cancelConn s)).now = _; rw [b1, c1]
   have hjq : j.writeQ = s.writeQ := by show (beginJoin (cancelConn s)).writeQ = _; rw [b2, c2]
   have hda := drain_all gaps j s.now dl hdr (by rw [hjq]; exact hl) (by rw [hjn]; exact hg)
   simp only at hda
-  obtain ⟨d1, d2, d3, d4⟩ := hda
-  have hsc := shutdown_completes (run j (drainEvs gaps)).1 s.now d1 (Or.inl d2)
+  obtain ⟨d1, d2, d3, d4, d5⟩ := hda
+  have hsc := shutdown_completes (run j (drainEvs gaps)).1 s.now d1 d5 (Or.inl d2)
   have hrun : (run s (closeSchedule gaps)).1
       = (run (run j (drainEvs gaps)).1 [.shutdownRun, .advance writerTO, .tick .cwcloseTO]).1 := by
     simp only [closeSchedule, List.append_assoc, List.singleton_append]
@@ -141,6 +154,72 @@ theorem close_draining {s : St} (hs : Reachable s) (hr : AtRest s) (dl : Nat) (g
   rw [hmul]
   omega
 
+/-- a device is in a request round of its set-up: sensor data seen, requests outstanding, the
+retry timer pending, `reqAlive` request tasks alive -/
+def inSetupRound (d : Dev) : Bool := match d.setup with | .requesting _ _ => true | _ => false
+
+/-- what the modelled scheduler does for: close(); `n` frames arriving back to back; then up to
+WRITER_TIMEOUT for the transport -/
+def burstSchedule (n : Nat) : List Ev :=
+  [.close] ++ List.replicate n (.feed .foreign) ++ [.shutdownRun, .advance writerTO, .tick .cwcloseTO]
+
+/-- **close() in the middle of a device set-up** (sensor data seen, request rounds in progress
+with their retry timers pending - no assumption at all on the devices): with the controller
+responsive (one frame per queued request, arriving before the next set-up timer) close() returns
+within WRITER_TIMEOUT of the last frame, the transport is closed and NOTHING is left - `tasks = 0`
+counts the set-up tasks and their `PhysicalDevice.request` tasks (`reqTasks`), which die with
+the set-up task -/
+theorem close_during_setup {s : St} (hs : Reachable s) (hr : AtRest s)
+    (hp : s.producers > 0) (hrd : isReading s.pphase = true) (hd : s.wdrain = .ok) (hq : s.writeQ ≠ []) :
+    Closed (run s (burstSchedule s.writeQ.length)).1 s.now writerTO ∧
+    reqTasks (run s (burstSchedule s.writeQ.length)).1 = 0 := by
+  have hi := hs.inv
+  have hc : s.connected = true := by
+    cases hc : s.connected
+    · have := hi.disc_prod hc; omega
+    · rfl
+  have hrec : s.recon = .idle := hi.conn_recon hc
+  have hw : s.writer.isSome = true := (hs.winv (by rw [hr.closing]; rfl) (Or.inl hc)).1
+  have e1 : (step s .close).1 = beginJoin (cancelConn s) := by
+    have hu : reconOwner s.recon ≠ some .user := hr.notUser
+    simp [step, closeEv, hr.closing, hu, isDone]
+  obtain ⟨c1, c2, c3, c4, c5, c6, c7, c8, c9, c10⟩ := cancelConn_fields s
+  obtain ⟨b1, b2, b3, b4, b5, b6, b7, b8, b9, b10⟩ := beginJoin_fields (cancelConn s)
+  have hcr : (cancelConn s).recon = .idle := by unfold cancelConn; split <;> first | rfl | exact hrec
+  have hunf : unfinished (cancelConn s) ≠ 0 := by
+    rw [unfinished_cancelConn]; unfold unfinished
+    have : s.writeQ.length ≠ 0 := by simpa using hq
+    omega
+  let j := beginJoin (cancelConn s)
+  have hdr : DrainingB j s.now := by
+    refine ⟨?_, ?_, ?_, ?_, ?_, ?_, ?_, ?_⟩
+    · show (beginJoin (cancelConn s)).closing = _
+      rw [beginJoin_closing, c1]; simp [hunf]
+    · show (beginJoin (cancelConn s)).producers > 0; rw [b3, c3]; exact hp
+    · show isReading (beginJoin (cancelConn s)).pphase = true; rw [b4, c4]; exact hrd
+    · show (beginJoin (cancelConn s)).wdrain = _; rw [b6, c6]; exact hd
+    · show (beginJoin (cancelConn s)).writer.isSome = true; rw [b7, c7]; exact hw
+    · show (beginJoin (cancelConn s)).recon = _; rw [b8]; exact hcr
+    · show (beginJoin (cancelConn s)).writeQ ≠ []; rw [b2, c2]; exact hq
+    · show (beginJoin (cancelConn s)).rj = true; rw [b10, c10, hr.readIdle]; rfl
+  have hjn : j.now = s.now := by show (beginJoin (cancelConn s)).now = _; rw [b1, c1]
+  have hjq : j.writeQ = s.writeQ := by show (beginJoin (cancelConn s)).writeQ = _; rw [b2, c2]
+  have hba := burst_all s.writeQ.length j s.now hdr (by rw [hjq])
+  simp only at hba
+  obtain ⟨d1, d2, d3, d5⟩ := hba
+  have hsc := shutdown_completes (run j (List.replicate s.writeQ.length (.feed .foreign))).1 s.now d1 d5 (Or.inl d2)
+  have hrun : (run s (burstSchedule s.writeQ.length)).1
+      = (run (run j (List.replicate s.writeQ.length (.feed .foreign))).1 [.shutdownRun, .advance writerTO, .tick .cwcloseTO]).1 := by
+    simp only [burstSchedule, List.append_assoc, List.singleton_append]
+    show (run (step s .close).1 (List.replicate s.writeQ.length (.feed .foreign) ++ _)).1 = _
+    rw [e1, run_append]
+  rw [hrun]
+  have hcl : Closed _ s.now writerTO := hsc.mono (by rw [d3, hjn]; omega)
+  refine ⟨hcl, ?_⟩
+  obtain ⟨t1, _, _, h3, _⟩ := hcl
+  unfold tasks deviceTasks at h3
+  omega
+
 /-- **C12, the part that holds** (`close_partial`): from every reachable state at rest that
 *drains* - write queue empty, or connected to a controller that keeps sending - close() under
 the modelled scheduler terminates within `(|writeQ| + 1) · ioTimeout`, the transport is closed,
@@ -148,8 +227,9 @@ and no task created by the protocol, the connection, a device or a sub-device is
 (`tasks = 0` counts producer, consumers, loss handler, reconnect task, set-up tasks, device
 tasks, mixer and thermostat tasks).
 Missing for the full statement: states that do not drain (finding F1, `close_stuck_witness`),
-devices in the middle of a set-up request round (they queue further requests while close()
-waits; exercised by the harness only), and schedulers other than the modelled one. -/
+devices in the middle of a set-up request round when the frames arrive slower than the retry
+timers (then further requests are queued while close() waits: harness only; `close_during_setup`
+covers the responsive controller), and schedulers other than the modelled one. -/
 theorem close_partial {s : St} (hs : Reachable s) (hr : AtRest s) (gaps : List Nat) (hd : Drains s gaps) :
     Closed (run s (closeSchedule gaps)).1 s.now ((s.writeQ.length + 1) * ioTimeout) := by
   have hio : ioTimeout = readerTO ∧ ioTimeout = writerTO := by decide
@@ -184,7 +264,7 @@ def shutDevUnion (d : Dev) : Dev :=
 model honest: the theorem above is not true of the merged iteration) -/
 theorem union_misses_overlapping_mixer :
     ∃ d : Dev, ∃ x ∈ (shutDevUnion d).mixers, x.parked ≠ 0 :=
-  ⟨{ addr := 69, setup := .done, pw := false, parked := 0, mixers := [⟨0, 1⟩], thermos := [⟨0, 1⟩] },
+  ⟨{ addr := 69, setup := .done, pw := false, pub := true, parked := 0, mixers := [⟨0, 1⟩], thermos := [⟨0, 1⟩] },
    ⟨0, 1⟩, by decide, by decide⟩
 
 /-- **after fa07755**: close() on a protocol that is already disconnected (connection lost,
@@ -277,6 +357,36 @@ theorem stuck_disconnected_forever {s : St} {t0 : Nat} (h : Stuck s t0) (hd : De
         exact ih h hd
       | _ => simp [isFeed] at hfe
 
+/-- **F1, read-queue side, for every schedule**: frames left in the read queue by consumers that
+exited while the link was down (five frames of a new device behind a slow subscriber, EOF, the
+subscriber returns, three consumers finish and exit, two frames remain; reconnect off or
+cancelled by close()) keep close() in `Queues.join` whatever happens - such states satisfy
+neither `AtRest.readIdle` nor any conclusion of `close_partial` -/
+theorem stuck_read_queue {s : St} (h : StuckRead s) (es : List Ev) : isDone (run s es).1.closing = false := by
+  induction es generalizing s with
+  | nil =>
+    have := h.joining
+    show isDone s.closing = false
+    cases hc : s.closing <;> simp_all [isJoining, isDone]
+  | cons e es ih => exact ih (stuckread_step h e)
+
+/-- the state of the audit's example: 5 ecoSTER frames behind a slow subscriber with 3 consumers,
+EOF with reconnect off, the subscriber returns: 3 delivered, 2 left, no consumer -/
+def stuckReadQueue : St :=
+  (run (init 3 false []) [.connect, .prodStart, .gate 81, .feed (.pw 81), .take, .feed (.pw 81), .take, .feed (.pw 81), .take,
+    .feed (.pw 81), .feed (.pw 81), .readFault, .lostRun, .release]).1
+
+theorem stuckReadQueue_facts :
+    stuckReadQueue.connected = false ∧ stuckReadQueue.consumers = 0 ∧ stuckReadQueue.readQ.length = 2 ∧
+    stuckReadQueue.rUnf = 2 ∧ stuckReadQueue.writeQ = [] ∧ unfinished stuckReadQueue = 0 ∧
+    stuckReadQueue.closing = .no ∧ internal? stuckReadQueue = none := by decide
+
+/-- close() on it is stuck for ever (and it is not `AtRest`: `readIdle` fails) -/
+theorem stuck_read_witness : Reachable stuckReadQueue ∧ stuckReadQueue.rUnf ≠ 0 ∧
+    ∀ es, isDone (run (step stuckReadQueue .close).1 es).1.closing = false := by
+  refine ⟨⟨3, false, [], _, rfl⟩, by decide, fun es => ?_⟩
+  exact stuck_read_queue ⟨by decide, by decide, by decide, by decide, by decide, ⟨by decide, by decide, by decide, by decide⟩⟩ es
+
 /-- **the negation of the full statement, with its two witnesses** (known finding F1): both
 states are reachable and at rest; after close() they are `Stuck`, so under the modelled
 scheduler with no arriving frame - and under every other frame-free schedule - close() has not
@@ -289,8 +399,8 @@ theorem close_stuck_witness :
     ¬ close_full := by
   have r1 : Reachable stuckDisconnected := ⟨3, false, [], _, rfl⟩
   have r2 : Reachable stuckSilent := ⟨3, true, [], _, rfl⟩
-  have a1 : AtRest stuckDisconnected := ⟨by decide, by decide⟩
-  have a2 : AtRest stuckSilent := ⟨by decide, by decide⟩
+  have a1 : AtRest stuckDisconnected := ⟨by decide, by decide, by decide, by decide⟩
+  have a2 : AtRest stuckSilent := ⟨by decide, by decide, by decide, by decide⟩
   have s1 : Stuck (step stuckDisconnected .close).1 stuckDisconnected.now := ⟨by decide, by decide, by decide⟩
   have s2 : Stuck (step stuckSilent .close).1 stuckSilent.now := ⟨by decide, by decide, by decide⟩
   refine ⟨⟨r1, a1, ?_⟩, ⟨r2, a2, ?_⟩, ?_⟩
@@ -315,7 +425,7 @@ theorem close_stuck_witness :
 (overlapping indexes), a parked task in the device, the mixer and the thermostat, set-up given up,
 24 of its requests still unsent -/
 def exIdle : St :=
-  (run (init 3 true []) [.connect, .prodStart, .feed (.sensors 1 1), .setupGo, .park (.dev 69), .park (.mixer 0),
+  (run (init 3 true []) [.connect, .prodStart, .feed (.sensors 1 1), .take, .setupGo, .park (.dev 69), .park (.mixer 0),
     .park (.thermo 0), .advance 3000, .tick (.setup 69), .advance 3000, .tick (.setup 69), .advance 3000,
     .tick (.setup 69), .advance 1000, .tick .readTO, .lostRun, .lostRun2, .prodStart]).1
 
@@ -323,26 +433,37 @@ example : Reachable exIdle := ⟨3, true, [], _, rfl⟩
 example : exIdle.connected = true ∧ exIdle.writeQ.length = 24 ∧ deviceTasks exIdle = 3 ∧ exIdle.closing = .no := by decide
 
 /-- the same after the connection was lost with reconnect waiting: disconnected, queue empty -/
-def exLost : St := (run (init 2 true [.ok .ok .ok, .err]) [.connect, .prodStart, .feed (.pw 69), .park (.dev 69), .readFault,
+def exLost : St := (run (init 2 true [.ok .ok .ok, .err]) [.connect, .prodStart, .feed (.pw 69), .take, .park (.dev 69), .readFault,
   .lostRun, .lostRun2]).1
 
 example : Reachable exLost := ⟨2, true, _, _, rfl⟩
-example : AtRest exLost := ⟨by decide, by decide⟩
+example : AtRest exLost := ⟨by decide, by decide, by decide, by decide⟩
 example : Drains exLost [] := .empty (by decide)
 example : exLost.connected = false ∧ deviceTasks exLost = 2 ∧ lostTasks exLost = 2 := by decide
 /-- ... and what `close_partial` promises, computed -/
 example : isDone (run exLost (closeSchedule [])).1.closing = true ∧ tasks (run exLost (closeSchedule [])).1 = 0 := by decide
 
 /-- connected with two requests queued, controller sends a frame after 1 s and after 9 s -/
-def exSending : St := (run (init 3 true []) [.connect, .prodStart, .feed (.pw 69), .enq 2]).1
+def exSending : St := (run (init 3 true []) [.connect, .prodStart, .feed (.pw 69), .take, .enq 2]).1
 
 example : Reachable exSending := ⟨3, true, [], _, rfl⟩
-example : AtRest exSending := ⟨by decide, by decide⟩
+example : AtRest exSending := ⟨by decide, by decide, by decide, by decide⟩
 example : Drains exSending [1000, 9000] :=
   .sending 10000 [1000, 9000] (by decide) (by decide) (by decide) (by decide) (by decide)
     (by intro d hd; have : d ∈ exSending.devices := hd; revert d; decide) (by decide) (by decide)
     ⟨by decide, by decide, trivial⟩
 example : isDone (run exSending (closeSchedule [1000, 9000])).1.closing = true ∧
     tasks (run exSending (closeSchedule [1000, 9000])).1 = 0 ∧ (run exSending (closeSchedule [1000, 9000])).1.wopen = false := by decide
+
+
+/-- hypotheses of `close_during_setup`: sensor data seen, first request round in progress (8
+request tasks alive, 8 requests queued, retry timer pending) -/
+def exSetup : St := (run (init 3 true []) [.connect, .prodStart, .feed (.sensors 1 1), .take, .setupGo]).1
+
+example : Reachable exSetup := ⟨3, true, [], _, rfl⟩
+example : AtRest exSetup := ⟨by decide, by decide, by decide, by decide⟩
+example : exSetup.producers > 0 ∧ isReading exSetup.pphase = true ∧ exSetup.wdrain = .ok ∧ exSetup.writeQ.length = 8 ∧
+    reqTasks exSetup = 8 ∧ setupTasks exSetup = 1 ∧ exSetup.devices.any inSetupRound = true := by decide
+example : isDone (run exSetup (burstSchedule 8)).1.closing = true ∧ tasks (run exSetup (burstSchedule 8)).1 = 0 := by decide
 
 end PlumVerif.C12
